@@ -89,6 +89,14 @@ def family_calls():
         for node in ast.walk(tree):
             if isinstance(node, ast.Attribute) and isinstance(node.value, ast.Name):
                 attrs.setdefault(node.value.id, set()).add(node.attr)
+            # `Enum[cfg["x"]]`, `Enum(value)`, `list(Enum)` / `for m in Enum`: every member is reachable
+            if isinstance(node, ast.Subscript) and isinstance(node.value, ast.Name):
+                attrs.setdefault(node.value.id, set()).add("*")
+            if isinstance(node, (ast.For, ast.comprehension)) and isinstance(node.iter, ast.Name):
+                attrs.setdefault(node.iter.id, set()).add("*")
+            if isinstance(node, ast.Call) and isinstance(node.func, ast.Name) and node.func.id in ("list", "tuple", "sorted") \
+                    and node.args and isinstance(node.args[0], ast.Name):
+                attrs.setdefault(node.args[0].id, set()).add("*")
             if not isinstance(node, ast.Call):
                 continue
             fn = node.func
@@ -127,7 +135,7 @@ def report():
     for cname, info in sorted(lib.items()):
         if info["enum"]:
             used = attrs.get(cname, set())
-            missing = [m for m in info["enum"] if m not in used]
+            missing = [] if "*" in used else [m for m in info["enum"] if m not in used]
             if missing and cname in names:
                 enum_gaps[cname] = missing
             elif cname not in names:
